@@ -1,0 +1,57 @@
+//go:build verif
+
+package sonic
+
+import (
+	"unsafe"
+
+	"github.com/talostrading/sonic/internal"
+)
+
+// VerifLastBatch returns the first n entries epoll_wait handed to the last poll. Verification harness only.
+func (ioc *IO) VerifLastBatch(n int) []internal.VerifEvent { return internal.VerifEvents(ioc.poller, n) }
+
+// VerifWakerFd returns the descriptor of the wake-up eventfd.
+func (ioc *IO) VerifWakerFd() int { return internal.VerifWakerFd(ioc.poller) }
+
+// VerifRegistered reports whether a slot with this descriptor is in the registry of in-flight objects.
+func (ioc *IO) VerifRegistered(fd int) bool {
+	if fd >= 0 && fd < len(ioc.pending.static) {
+		return ioc.pending.static[fd] != nil
+	}
+	_, ok := ioc.pending.dynamic[fd]
+	return ok
+}
+
+// VerifPendingTimers returns the number of timers the IO context keeps alive.
+func (ioc *IO) VerifPendingTimers() int { return len(ioc.pendingTimers) }
+
+func verifSlotOf(x any) *internal.Slot {
+	switch v := x.(type) {
+	case *file:
+		return &v.slot
+	case *conn:
+		return &v.file.slot
+	case *AsyncAdapter:
+		return &v.slot
+	case *Timer:
+		return v.it.VerifSlot()
+	}
+	return nil
+}
+
+// VerifSlotEvents returns the interest bits (Slot.Events) of a file, conn, adapter or timer.
+func VerifSlotEvents(x any) uint32 {
+	if s := verifSlotOf(x); s != nil {
+		return uint32(s.Events)
+	}
+	return 0
+}
+
+// VerifSlotAddr returns the address of the object's slot (its identity in VerifLastBatch).
+func VerifSlotAddr(x any) uintptr {
+	if s := verifSlotOf(x); s != nil {
+		return uintptr(unsafe.Pointer(s))
+	}
+	return 0
+}
